@@ -242,18 +242,38 @@ func consStream(t *rapid.T, e *consEnv, p *hpeer, kind string) stream {
 }
 
 func TestHostileStreams(t *testing.T) {
-	rapid.Check(t, func(t *rapid.T) {
+	rapid.Check(t, func(t *rapid.T) { streamCase(t, "TestHostileStreams", false) })
+}
+
+// TestIdleReactorStreams: the same streams against reactors that are REGISTERED BUT IDLE — blockchain reactor of a node
+// that is not fast syncing (pool never started), statesync reactor of a node that is not syncing, consensus reactor of a
+// node that is still syncing (wait-sync) — always longer than the 1000-slot internal queues. Nobody drains what an idle
+// reactor queues internally; it must not queue.
+func TestIdleReactorStreams(t *testing.T) {
+	rapid.Check(t, func(t *rapid.T) { streamCase(t, "TestIdleReactorStreams", true) })
+}
+
+func streamCase(t *rapid.T, test string, idle bool) {
+	{
 		newCase()
-		n := rapid.SampledFrom([]int{400, 1000}).Draw(t, "n")
+		// lengths around the capacities of the node's internal queues (1000 slots: consensus input queue, block pool
+		// error channel, block pool request channel ...): just below, at, just above, well above
+		n := rapid.SampledFrom([]int{400, 1000, 1001, 1200, 2000}).Draw(t, "n")
 		if lib.Thorough() {
-			n = rapid.SampledFrom([]int{400, 1000, 4000}).Draw(t, "n.thorough")
+			n = rapid.SampledFrom([]int{400, 999, 1000, 1001, 1200, 2000, 4000}).Draw(t, "n.thorough")
 		}
 		reactor := rapid.SampledFrom([]string{"consensus", "consensus", "consensus", "mempool", "blockchain", "statesync"}).Draw(t, "reactor")
+		if idle {
+			reactor = rapid.SampledFrom([]string{"consensus", "blockchain", "blockchain", "statesync"}).Draw(t, "idle.reactor")
+			n = rapid.SampledFrom([]int{1001, 1200, 2000}).Draw(t, "idle.n")
+		}
 		switch reactor {
 		case "consensus":
 			nVals := rapid.SampledFrom([]int{4, 4, 4, 70}).Draw(t, "nvals")
 			nBlocks := rapid.SampledFrom([]int{0, 1, 2}).Draw(t, "blocks")
-			e := newConsEnv(t, nVals, nBlocks, rapid.SampledFrom([]int{-1, 0}).Draw(t, "nodeval"), 1)
+			// waitSync: the node is still block/state syncing — the reactor is registered and running, the state machine idle
+			waitSync := idle || rapid.IntRange(0, 3).Draw(t, "waitsync") == 0
+			e := newConsEnvOpt(t, nVals, nBlocks, rapid.SampledFrom([]int{-1, 0}).Draw(t, "nodeval"), 1, waitSync)
 			defer func() {
 				e.closeChecked()
 				if !wedged() {
@@ -261,7 +281,11 @@ func TestHostileStreams(t *testing.T) {
 				}
 			}()
 			state := rapid.SampledFrom([]string{"newheight", "propose-empty", "proposal", "prevotes", "round1"}).Draw(t, "nodestate")
-			e.drive(state)
+			if waitSync {
+				state = "wait-sync"
+			} else {
+				e.drive(state)
+			}
 			p := newPeer(false)
 			var ps *consensus.PeerState
 			must(t, "consensus: InitPeer+AddPeer for a new connection (Switch.addPeer)", func() { ps = e.addPeer(p) })
@@ -273,7 +297,7 @@ func TestHostileStreams(t *testing.T) {
 			kind := rapid.SampledFrom(consStreamKinds).Draw(t, "kind")
 			st := consStream(t, e, p, kind)
 			before := e.ownStateChecked()
-			res := runStream(t, "TestHostileStreams", "consensus", func(ch byte, b []byte, what string) recvOutcome {
+			res := runStream(t, test, "consensus", func(ch byte, b []byte, what string) recvOutcome {
 				return deliver(t, e.sw, e.conR, ch, p, b, what)
 			}, st, n)
 			if after := e.ownStateChecked(); after != before {
@@ -286,7 +310,7 @@ func TestHostileStreams(t *testing.T) {
 				t.Fatalf("PROCESS DEATH: a per-peer routine panicked after a stream of %d %s messages\n%s", res.sent, kind, pn)
 			}
 			e.probe(ps)
-			lib.Case("TestHostileStreams", lib.FP(reactor, kind, n, nVals, nBlocks, state), res.sent >= 100, "stream:consensus/"+kind, "node:"+state)
+			lib.Case(test, lib.FP(reactor, kind, n, nVals, nBlocks, state), res.sent >= 100, "stream:consensus/"+kind, "node:"+state)
 		case "mempool":
 			version := rapid.SampledFrom([]string{"v0", "v1"}).Draw(t, "version")
 			mcfg := cfg.DefaultMempoolConfig()
@@ -317,16 +341,16 @@ func TestHostileStreams(t *testing.T) {
 				return
 			}
 			st.tracked = size
-			res := runStream(t, "TestHostileStreams", e.name, func(ch byte, b []byte, what string) recvOutcome {
+			res := runStream(t, test, e.name, func(ch byte, b []byte, what string) recvOutcome {
 				return deliver(t, e.sw, e.r, ch, p, b, what)
 			}, st, n)
 			if bad := e.inv(); bad != "" {
 				t.Fatalf("%s: after the stream: %s", e.name, bad)
 			}
 			e.probe(t)
-			lib.Case("TestHostileStreams", lib.FP(reactor, version, kind, n, mcfg.Size, mcfg.CacheSize), res.sent >= 100, "stream:"+e.name+"/"+kind)
+			lib.Case(test, lib.FP(reactor, version, kind, n, mcfg.Size, mcfg.CacheSize), res.sent >= 100, "stream:"+e.name+"/"+kind)
 		case "blockchain":
-			fast := rapid.Bool().Draw(t, "fastsync")
+			fast := !idle && rapid.Bool().Draw(t, "fastsync")
 			e, ch := newBlockchainEnv(t, 2, fast)
 			defer func() {
 				e.closeChecked(t)
@@ -336,25 +360,17 @@ func TestHostileStreams(t *testing.T) {
 			}()
 			var p *hpeer
 			must(t, e.name+": connect", func() { p = e.addPeer(false) })
-			kind := rapid.SampledFrom([]string{"status-heights", "blockrequest-heights", "noblock-heights"}).Draw(t, "kind")
-			st := stream{name: kind, ch: bcv0.BlockchainChannel}
-			switch kind {
-			case "status-heights":
-				st.msg = func(i int) []byte { return wrap(&bcproto.StatusResponse{Base: 1, Height: ch.Tip() + 1 + int64(i)}) }
-			case "blockrequest-heights":
-				st.msg = func(i int) []byte { return wrap(&bcproto.BlockRequest{Height: math.MaxInt64 - int64(i)}) }
-			case "noblock-heights":
-				st.msg = func(i int) []byte { return wrap(&bcproto.NoBlockResponse{Height: ch.Tip() + 1 + int64(i)}) }
-			}
+			kind := rapid.SampledFrom(append([]string{"blockresponse-far-heights"}, bcStreamKinds...)).Draw(t, "kind")
+			st := stream{name: kind, ch: bcv0.BlockchainChannel, msg: bcStreamMsg(kind, ch)}
 			before := e.own()
-			res := runStream(t, "TestHostileStreams", e.name, func(c byte, b []byte, what string) recvOutcome {
+			res := runStream(t, test, e.name, func(c byte, b []byte, what string) recvOutcome {
 				return deliver(t, e.sw, e.r, c, p, b, what)
 			}, st, n)
 			if after := e.own(); after != before {
 				t.Fatalf("%s: node's own state changed by the stream: %s -> %s", e.name, before, after)
 			}
 			e.probe(t)
-			lib.Case("TestHostileStreams", lib.FP(reactor, fast, kind, n), res.sent >= 100, "stream:"+e.name+"/"+kind)
+			lib.Case(test, lib.FP(reactor, fast, kind, n), res.sent >= 100, "stream:"+e.name+"/"+kind)
 		case "statesync":
 			e, r, _ := newStatesyncEnv(t)
 			defer func() {
@@ -363,42 +379,100 @@ func TestHostileStreams(t *testing.T) {
 					checkNoLeak(t, e.before, e.name)
 				}
 			}()
-			syncing := rapid.Bool().Draw(t, "syncing")
+			syncing := !idle && rapid.Bool().Draw(t, "syncing")
 			if syncing {
 				must(t, "statesync: Reactor.Sync, first half", func() { r.VerifC17BeginSync(&failingProvider{}) })
 			}
 			var p *hpeer
 			must(t, e.name+": connect", func() { p = e.addPeer(false) })
-			kind := rapid.SampledFrom([]string{"snapshots-heights", "snapshots-hashes", "chunks-indices"}).Draw(t, "kind")
+			kind := rapid.SampledFrom(ssStreamKinds).Draw(t, "kind")
 			st := stream{name: kind, limit: 10} // recentSnapshots per peer
-			switch kind {
-			case "snapshots-heights":
-				st.ch = statesync.SnapshotChannel
-				st.msg = func(i int) []byte {
-					return wrap(&ssproto.SnapshotsResponse{Height: uint64(10 + i), Format: 1, Chunks: 1, Hash: b32(1)})
-				}
-			case "snapshots-hashes":
-				st.ch = statesync.SnapshotChannel
-				st.msg = func(i int) []byte {
-					return wrap(&ssproto.SnapshotsResponse{Height: 10, Format: uint32(i % 3), Chunks: 1, Hash: b32(uint64(i)), Metadata: fill(uint64(i), 200)})
-				}
-			case "chunks-indices":
-				st.ch = statesync.ChunkChannel
-				st.msg = func(i int) []byte {
-					return wrap(&ssproto.ChunkResponse{Height: 10, Format: 1, Index: uint32(i), Chunk: fill(uint64(i), 100)})
-				}
-			}
+			st.ch, st.msg = ssStreamMsg(kind)
 			st.tracked = r.VerifC17SnapshotCount
-			res := runStream(t, "TestHostileStreams", e.name, func(c byte, b []byte, what string) recvOutcome {
+			res := runStream(t, test, e.name, func(c byte, b []byte, what string) recvOutcome {
 				return deliver(t, e.sw, e.r, c, p, b, what)
 			}, st, n)
 			if syncing {
 				bounded(t, "statesync: Reactor.Sync, second half (SyncAny)", func() { _, _, _ = r.VerifC17FinishSync() })
 			}
 			e.probe(t)
-			lib.Case("TestHostileStreams", lib.FP(reactor, syncing, kind, n), res.sent >= 100, fmt.Sprintf("stream:statesync(syncing=%v)/%s", syncing, kind))
+			lib.Case(test, lib.FP(reactor, syncing, kind, n), res.sent >= 100, fmt.Sprintf("stream:statesync(syncing=%v)/%s", syncing, kind))
 		}
-	})
+	}
+}
+
+var bcStreamKinds = []string{"status-heights", "blockrequest-heights", "noblock-heights", "blockresponse-far-heights", "blockresponse-near-heights"}
+
+func bcStreamMsg(kind string, ch *lib.Chain) func(i int) []byte {
+	switch kind {
+	case "status-heights":
+		return func(i int) []byte { return wrap(&bcproto.StatusResponse{Base: 1, Height: ch.Tip() + 1 + int64(i)}) }
+	case "blockrequest-heights":
+		return func(i int) []byte { return wrap(&bcproto.BlockRequest{Height: math.MaxInt64 - int64(i)}) }
+	case "noblock-heights":
+		return func(i int) []byte { return wrap(&bcproto.NoBlockResponse{Height: ch.Tip() + 1 + int64(i)}) }
+	default: // blockresponse-far-heights, blockresponse-near-heights
+		// blocks nobody asked for: a real, decodable block relabelled with another height
+		pb, err := ch.Blocks[1].ToProto()
+		if err != nil {
+			panic(err)
+		}
+		far := int64(5_000_000)
+		if kind == "blockresponse-near-heights" {
+			far = 3
+		}
+		return func(i int) []byte {
+			b := *pb
+			b.Header.Height = ch.Tip() + far + int64(i%7)
+			return wrap(&bcproto.BlockResponse{Block: &b})
+		}
+	}
+}
+
+var ssStreamKinds = []string{"snapshots-heights", "snapshots-hashes", "chunks-indices"}
+
+func ssStreamMsg(kind string) (byte, func(i int) []byte) {
+	switch kind {
+	case "snapshots-heights":
+		return statesync.SnapshotChannel, func(i int) []byte {
+			return wrap(&ssproto.SnapshotsResponse{Height: uint64(10 + i), Format: 1, Chunks: 1, Hash: b32(1)})
+		}
+	case "snapshots-hashes":
+		return statesync.SnapshotChannel, func(i int) []byte {
+			return wrap(&ssproto.SnapshotsResponse{Height: 10, Format: uint32(i % 3), Chunks: 1, Hash: b32(uint64(i)), Metadata: fill(uint64(i), 200)})
+		}
+	default:
+		return statesync.ChunkChannel, func(i int) []byte {
+			return wrap(&ssproto.ChunkResponse{Height: 10, Format: 1, Index: uint32(i), Chunk: fill(uint64(i), 100)})
+		}
+	}
+}
+
+// TestDirectedIdleReactorsLongStreams: every block-sync and state-sync stream kind, 1200 messages from one peer, against
+// the reactor of a node that is NOT syncing (block pool never started / no syncer), followed by the liveness probes.
+func TestDirectedIdleReactorsLongStreams(t *testing.T) {
+	ft := tfail{t}
+	for _, kind := range bcStreamKinds {
+		e, ch := newBlockchainEnv(ft, 2, false)
+		p := e.addPeer(false)
+		res := runStream(ft, "TestDirectedIdleReactorsLongStreams", e.name, func(c byte, b []byte, what string) recvOutcome {
+			return deliver(ft, e.sw, e.r, c, p, b, what)
+		}, stream{name: kind, ch: bcv0.BlockchainChannel, msg: bcStreamMsg(kind, ch)}, 1200)
+		e.probe(ft)
+		e.closeChecked(ft)
+		lib.Case("TestDirectedIdleReactorsLongStreams", lib.FP("bc", kind), res.sent >= 100, "stream:"+e.name+"/"+kind)
+	}
+	for _, kind := range ssStreamKinds {
+		e, r, _ := newStatesyncEnv(ft)
+		p := e.addPeer(false)
+		c, msg := ssStreamMsg(kind)
+		res := runStream(ft, "TestDirectedIdleReactorsLongStreams", e.name, func(c byte, b []byte, what string) recvOutcome {
+			return deliver(ft, e.sw, e.r, c, p, b, what)
+		}, stream{name: kind, ch: c, msg: msg, limit: 10, tracked: r.VerifC17SnapshotCount}, 1200)
+		e.probe(ft)
+		e.closeChecked(ft)
+		lib.Case("TestDirectedIdleReactorsLongStreams", lib.FP("ss", kind), res.sent >= 100, "stream:statesync(idle)/"+kind)
+	}
 }
 
 // TestDirectedFarRoundVotesFromOnePeer: the fixed instance — 1500 junk prevotes of the current height for 1500 different
